@@ -1384,12 +1384,12 @@ impl<T> Trace<T> {
 // is compared with matching the NORMALISED request). Request::rebuild_with_config is under contract in unit req; here it is a named function.
 pub assume_specification<T: ?Sized, A: std::alloc::Allocator> [<Arc<T, A> as std::convert::AsRef<T>>::as_ref] (a: &Arc<T, A>) -> (r: &T) ensures r == &**a;
 pub uninterp spec fn rebuilt(cfg: RouterConfig, r: Request) -> Request;
-pub uninterp spec fn rprio<T>(r: Route<T>) -> u64;
+pub uninterp spec fn rprio<T>(r: Route<T>) -> i64;
 impl Request {
     #[verifier::external_body] pub fn rebuild_with_config(config: &RouterConfig, request: &Request) -> (r: Request) ensures r == rebuilt(*config, *request) { unimplemented!() }
 }
 impl<T> Route<T> {
-    #[verifier::external_body] pub fn priority(&self) -> (r: u64) ensures r == rprio(*self) { unimplemented!() }
+    #[verifier::external_body] pub fn priority(&self) -> (r: i64) ensures r == rprio(*self) { unimplemented!() }
 }
 //@@ item src/router/mod.rs :: struct Router
 //@@ item src/router/trace.rs :: struct RouteTrace
